@@ -35,14 +35,26 @@ void CDNS::GzipCborOutputWriter::open()
 void CDNS::GzipCborOutputWriter::close()
 {
     try {
-        if (m_gzip.state) {
-            // Finish compression of all remaining data and close the GZIP stream
-            while (write_gzip(2048, Z_FINISH) != Z_STREAM_END);
-            deflateEnd(&m_gzip);
-        }
+        finish();
     }
     catch (std::exception& e) {
         std::cerr << e.what() << std::endl;
+    }
+}
+
+void CDNS::GzipCborOutputWriter::finish()
+{
+    if (m_gzip.state) {
+        // Finish compression of all remaining data and close the GZIP stream
+        try {
+            while (write_gzip(2048, Z_FINISH) != Z_STREAM_END);
+        }
+        catch (...) {
+            deflateEnd(&m_gzip);
+            throw;
+        }
+
+        deflateEnd(&m_gzip);
     }
 }
 
@@ -88,14 +100,26 @@ void CDNS::XzCborOutputWriter::open()
 void CDNS::XzCborOutputWriter::close()
 {
     try {
-        if (m_lzma.internal) {
-            // Finish compression of all remaining data and close the LZMA stream
-            while (write_lzma(2048, LZMA_FINISH) != LZMA_STREAM_END);
-            lzma_end(&m_lzma);
-        }
+        finish();
     }
     catch (std::exception& e) {
         std::cerr << e.what() << std::endl;
+    }
+}
+
+void CDNS::XzCborOutputWriter::finish()
+{
+    if (m_lzma.internal) {
+        // Finish compression of all remaining data and close the LZMA stream
+        try {
+            while (write_lzma(2048, LZMA_FINISH) != LZMA_STREAM_END);
+        }
+        catch (...) {
+            lzma_end(&m_lzma);
+            throw;
+        }
+
+        lzma_end(&m_lzma);
     }
 }
 
